@@ -68,6 +68,16 @@ func ruleR01_1(c *Check) {
 		why := "Txn.readTs assigned from " + short(w, rhs)
 		if w.isCallTo(rhs, readTsFn) {
 			okv = true
+		} else if o.SiteFn.Name == "badger.Stream.produceKVs" {
+			// stream producers read at the run's shared timestamp, a Stream field which Orchestrate takes
+			// from a regular transaction (oracle.readTs) — checked in detail by R25.1
+			if fld := w.fieldOf(rhs); fld != nil && isFieldOf(w, fld, "badger.Stream") {
+				for _, st := range w.F("badger.Stream.Orchestrate").Sites(selStore(fld)) {
+					if w.fieldOf(st.(*ast.AssignStmt).Rhs[0]) == rts {
+						okv = true
+					}
+				}
+			}
 		} else if o.SiteFn.Name == "badger.DB.NewTransactionAt" {
 			// managed mode: caller-chosen timestamp (R36.3); guarded by the managedTxns panic
 			if id, ok := unparen(rhs).(*ast.Ident); ok {
